@@ -429,7 +429,7 @@ Proof.
         split; [rewrite Nat.add_assoc; exact P1|]. split; [exact W1|].
         split; [eapply Forall2_le_trans; eassumption|].
         intros kk Hk. destruct (O1 kk Hk). lia.
-      * subst k. subst src1. cbn [skipn] in *. cbn [rbind].
+      * rewrite Hr' in Hsrc1. cbn [skipn] in Hsrc1. subst src1. cbn [rbind].
         destruct (is_intr e).
         { destruct (IH src ms len read Hwf Hpos Hlen Hrl)
             as (o & ms' & src' & sched' & n1 & R & REST).
